@@ -64,6 +64,11 @@ def generate(seed, tier, ncases=None):
         elif op == "init":
             off = rng.choice([1, 1, 0, rng.randint(-5, 30)])
         c = {"op": op, "graph": g, "offset": off, "scheme": scheme}
+        if op != "init" and rng.random() < 0.3:
+            # graphs as get_its / prune_its_to_rc leave them: mapped atoms carry idx_map, later additions do not
+            for nd in g.nodes:
+                if "aam" in g.nodes[nd]:
+                    g.nodes[nd]["idx_map"] = (nd, rng.choice([nd, nd + 1, 0]))
         r = rng.random()
         if op == "init" and r < 0.25 and g.number_of_nodes() >= 1:
             # exactly one pre-mapped atom, preferably the one whose id is 0 / smallest / first
